@@ -191,6 +191,8 @@ type callRec struct {
 	returned    bool
 	task        string
 	janitor     bool
+	// round (janitor only): the round the janitor had found idle when it decided to shut it down
+	round int
 }
 
 func (s *LifeScenario) Check(k *sim.Kernel) []sim.Violation {
@@ -225,7 +227,7 @@ func (s *LifeScenario) Check(k *sim.Kernel) []sim.Violation {
 		case "serve.done":
 			done = true
 		case "shutdown.call", "janitor.shutdown.call":
-			shutdowns = append(shutdowns, &callRec{invoke: e.Seq, task: e.Task, janitor: e.Kind != "shutdown.call"})
+			shutdowns = append(shutdowns, &callRec{invoke: e.Seq, task: e.Task, janitor: e.Kind != "shutdown.call", round: atoi(e.Data)})
 		case "shutdown.return", "janitor.shutdown.return":
 			for i := len(shutdowns) - 1; i >= 0; i-- {
 				if shutdowns[i].task == e.Task && !shutdowns[i].returned {
@@ -469,7 +471,8 @@ func (s *LifeScenario) Check(k *sim.Kernel) []sim.Violation {
 			onlyJanitor := false
 			for _, sd := range shutdowns {
 				if sd.invoke < rd.retSeq && (!sd.returned || sd.ret > rd.startSeq) {
-					if sd.janitor {
+					// (a janitor call aimed at an earlier round that lands here late is an ordinary Shutdown)
+					if sd.janitor && sd.round == rd.idx {
 						onlyJanitor = true
 					} else {
 						onlyJanitor = false
